@@ -253,7 +253,7 @@ def value_under_container(c) -> bool:
 
 
 def namespace_as_value(c) -> bool:
-    """D65: a reference that stops at (or walks into) a pure namespace node — a proper prefix of binding names
+    """D66: a reference that stops at (or walks into) a pure namespace node — a proper prefix of binding names
     that is not itself bound below the level — evaluates to the NameContainer object instead of an error."""
     s = _spec_trace(c)
     for L, best, full in s.used:
